@@ -237,6 +237,7 @@ func (e *Env) Logf(format string, args ...any) {
 func RunBubble(t *testing.T, spec SchedSpec, seed uint64, body func(e *Env)) (res Result) {
 	installHooks()
 	lib.VerifResetPools()
+	verifResetPools() // every sync.Pool of the process (patched sync package, see overlay/gen.py)
 	lib.VerifSpawnSeq.Store(0)
 	// no garbage collection inside a run: sync.Pool contents (buffer reuse, and with it the
 	// number of reads a frame needs) must not depend on when the collector happens to run
